@@ -70,6 +70,7 @@ class ValFlow:
         self.f = f
         self.env = {}
         self.field_src = set(field_sources)      # local ids whose FIELD reads are sources of their own (`p.x`, `p.is_id`)
+        self.field_tok = dict(field_sources) if isinstance(field_sources, dict) else {}      # local id -> token prefix (position token instead of the name)
         src = bound_params(f) if sources is None else sources
         self.sources = src
         for n, i, t in src:
@@ -119,7 +120,7 @@ class ValFlow:
         if k == 'field':
             b = peel(n['e'])
             if b.get('k') == 'local' and b.get('i') in self.field_src:
-                return frozenset([f"{b['n']}.{n['n']}"])
+                return frozenset([f"{self.field_tok.get(b['i'], b['n'])}.{n['n']}"])
             return self.ev(n['e'])
         if k in ('ref', 'un', 'cast', 'try', 'stmt'):
             return self.ev(n['e'])
